@@ -381,6 +381,8 @@ PROPS["C10"] = {
         # the client is a real OS process (runCommand / os-exec pipes), exits early or answers garbage
         {"name": "C10Process", "pkg": CC, "test": "TestVerifC10Process", "kind": "enum", "shards": {"quick": 4, "thorough": 4}, "timeout": 600},
         {"name": "C10DuplicateSend", "pkg": CC, "test": "TestVerifC10DuplicateSend", "kind": "enum"},
+        # a test name handed to the same client again after it was answered
+        {"name": "C10Resend", "pkg": CC, "test": "TestVerifC10Resend", "kind": "enum"},
         # an in-process client that writes a bad answer and then never returns
         {"name": "C10Wedged", "pkg": CC, "test": "TestVerifC10Wedged", "kind": "enum", "timeout": 300},
         # an answer of exactly the largest accepted size (16 MiB) / one byte more
